@@ -58,6 +58,11 @@ type Label struct {
 type Op struct {
 	Kind string   `json:"kind"`         // cmd | fault | cmdfault | race
 	Late string   `json:"late,omitempty"` // race: the state the overtaking late reply announces
+	// refresh: benign status traffic a real master can send - TASK_RUNNING for every live task of the
+	// environment, as the answers to the implicit reconciliation after a reconnection (how = reconnect)
+	// or as plain reconciliation updates (how = update), with optional ids left out
+	How  string `json:"how,omitempty"`
+	Omit string `json:"omit,omitempty"` // none | executor | agent | both
 	Ev   string   `json:"ev,omitempty"` // CONFIGURE | START | STOP | RESET
 	Oc   []string `json:"oc,omitempty"` // ack | errsrc | errerr | sendfail, by task position
 	F    *Fault   `json:"f,omitempty"`
@@ -360,8 +365,13 @@ var trigger = map[string]string{"START": "before_START_ACTIVITY", "STOP": "befor
 var evNames = []string{"START", "STOP", "RESET", "CONFIGURE"}
 
 // bookkeeping of what the core still associates with a task (decides whom a fault hits)
+// what the history of the case says the core must still associate with a task - kept by the harness
+// from the faults it injected, NOT read from the core's roster (a core that forgets the executor /
+// agent of a task, or that it owns it, must not get to choose the victims of the next fault)
 type taskBook struct {
 	simTerminal []bool // the simulated task already sent a terminal status
+	execGone    []bool // its executor was reported lost (HandleExecutorFailed clears the executor id)
+	agentGone   []bool // its agent was reported lost (HandleAgentFailed clears the agent id)
 }
 
 type caseRun struct {
@@ -401,18 +411,12 @@ func (c *caseRun) inject(f Fault) []int {
 		return []int{}
 	}
 	tid := c.taskId(f.V)
-	byTid := map[string]int{}
-	for i := 0; i < n; i++ {
-		byTid[c.taskId(i)] = i
-	}
-	roster := c.w.Sim.Taskman.VerifRoster()
 	vs := []int{}
 	switch f.Kind {
 	case "failed", "lost", "killed", "error":
-		for _, r := range roster {
-			if r.TaskId == tid && r.Locked && !c.book.simTerminal[f.V] {
-				vs = []int{f.V}
-			}
+		// an owned task stays locked until its executor or agent is reported lost
+		if !c.book.simTerminal[f.V] && !c.book.execGone[f.V] && !c.book.agentGone[f.V] {
+			vs = []int{f.V}
 		}
 		switch {
 		case c.book.simTerminal[f.V]:
@@ -440,10 +444,12 @@ func (c *caseRun) inject(f Fault) []int {
 		}
 		c.book.simTerminal[f.V] = true
 	case "executor":
+		// the tasks the simulated master launched under the same executor (one executor per accepted offer)
 		ex := c.w.ExecutorOf(tid)
-		for _, r := range roster {
-			if i, ok := byTid[r.TaskId]; ok && r.ExecutorId == ex && ex != "" {
+		for i := 0; i < n; i++ {
+			if ex != "" && c.w.ExecutorOf(c.taskId(i)) == ex && !c.book.execGone[i] {
 				vs = append(vs, i)
+				c.book.execGone[i] = true
 			}
 		}
 		if f.L != nil && f.L.Bare {
@@ -454,9 +460,10 @@ func (c *caseRun) inject(f Fault) []int {
 		c.goneWith(vs)
 	case "agent":
 		ag := c.w.AgentOf(tid)
-		for _, r := range roster {
-			if i, ok := byTid[r.TaskId]; ok && r.AgentId == ag && ag != "" {
+		for i := 0; i < n; i++ {
+			if ag != "" && c.w.AgentOf(c.taskId(i)) == ag && !c.book.agentGone[i] {
 				vs = append(vs, i)
+				c.book.agentGone[i] = true
 			}
 		}
 		c.w.Sim.FailAgent(ag)
@@ -722,7 +729,7 @@ func runCase(w *c0203.World, idx int, in Input) (obs []StepObs, wedged bool) {
 	name := fmt.Sprintf("x%d", idx)
 	n := len(in.Tasks)
 	c := &caseRun{w: w, in: in, name: name,
-		book: taskBook{make([]bool, n)}}
+		book: taskBook{make([]bool, n), make([]bool, n), make([]bool, n)}}
 	w.YAMLOf, w.PathOf = yamlFor(in), pathFor(in)
 	var calls []c0203.Call
 	probeId := map[string]string{}
@@ -868,6 +875,26 @@ func runCase(w *c0203.World, idx int, in Input) (obs []StepObs, wedged bool) {
 				want[op.F.V] = 4
 			}
 			want = c.wantAfterError(want, op.Oc)
+		case "refresh":
+			c.quiesce()
+			omitEx, omitAg := op.Omit == "executor" || op.Omit == "both", op.Omit == "agent" || op.Omit == "both"
+			if op.How == "reconnect" {
+				simcore.SetReconcileOmit(simcore.AnswerOmit{Executor: omitEx, Agent: omitAg, Source: omitEx && omitAg})
+				runs := simcore.ReconcileRuns()
+				w.Sim.Reconnect()
+				waitFor(10*time.Second, func() bool { return simcore.ReconcileRuns() > runs })
+				time.Sleep(30 * time.Millisecond)
+				simcore.SetReconcileOmit(simcore.AnswerOmit{})
+			} else {
+				for i := 0; i < n; i++ {
+					if !c.book.simTerminal[i] {
+						w.Sim.SendStatus(c.taskId(i), mesos.TASK_RUNNING, simcore.StatusLabel{Reason: reasonOf("reconciliation"), Source: sourceOf("master"),
+							OmitAgent: omitAg, OmitExecutor: omitEx})
+					}
+				}
+				time.Sleep(30 * time.Millisecond)
+			}
+			c.quiesce()
 		case "race":
 			f := *op.F
 			c.quiesce()
@@ -1057,6 +1084,8 @@ func caseTerm(in Input, obs []StepObs) string {
 		case "cmdfault":
 			ops[i] = fmt.Sprintf("SCmdFault %s %s %s", o.Ev, faultTerm(*o.F, victims(i+1, *o.F)), ocTerm(o.Oc))
 			kinds = append(kinds, labelCode(*o.F))
+		case "refresh":
+			ops[i] = "SRefresh"
 		case "race":
 			// held at the hand-over and overtaken: SRace; otherwise (role already in ERROR: no role
 			// event, nothing to hold) it was an ordinary idle fault
@@ -1079,6 +1108,11 @@ func caseTerm(in Input, obs []StepObs) string {
 
 var modes = []string{"basic", "direct", "fairmq"}
 var kindsAll = []string{"failed", "lost", "killed", "executor", "agent", "internal", "error"}
+
+// genRefresh: benign TASK_RUNNING traffic before a failure, half of it with ids left out
+func genRefresh(r *gen.Rand) Op {
+	return Op{Kind: "refresh", How: []string{"reconnect", "update"}[r.Intn(2)], Omit: []string{"none", "executor", "agent", "both", "both", "executor"}[r.Intn(6)]}
+}
 
 // genLabel: half of the failures are reported as the simulated executor does; the others vary the
 // reason code, the source, the optional fields and (1 in 12) the route: reconciliation answer after
@@ -1252,6 +1286,9 @@ func genCase(r *gen.Rand) (Input, string) {
 			if f.Kind == "internal" && r.Chance(1, 2) {
 				oc[v] = "errerr" // a device in ERROR refuses the STOP
 			}
+			if r.Chance(1, 4) {
+				in.Ops = append(in.Ops, genRefresh(r))
+			}
 			in.Ops = append(in.Ops, Op{Kind: "fault", F: &f, Oc: oc})
 			if g.kill(f) {
 				s = steps // a critical task failed: the environment goes to ERROR, the script ends
@@ -1285,6 +1322,9 @@ func genCase(r *gen.Rand) (Input, string) {
 			}
 			f := Fault{Kind: kindsAll[r.Intn(7)], V: v}
 			genLabel(r, &f, false)
+			if r.Chance(1, 4) {
+				in.Ops = append(in.Ops, genRefresh(r))
+			}
 			in.Ops = append(in.Ops, Op{Kind: "cmdfault", Ev: ev, F: &f, Oc: acks(n)})
 			crit := g.kill(f)
 			g.state = map[string]string{"START": "RUNNING", "STOP": "CONFIGURED", "RESET": "DEPLOYED", "CONFIGURE": "CONFIGURED"}[ev]
@@ -1372,6 +1412,18 @@ func corpus() []job {
 	add("corpus-claimed-agent-nested", Input{Tasks: []c0203.Task{t(true, "direct", 1), t(true, "fairmq", 2), t(false, "basic", 2)}, Groups: []int{1, 1, 0}, Claimed: true,
 		Ops: []Op{{Kind: "cmd", Ev: "START", Oc: acks(3)}, {Kind: "fault", F: &Fault{Kind: "agent", V: 2}, Oc: acks(3)}}})
 	add("corpus-claimed-early-internal-critical", Input{Tasks: two, Claimed: true, Early: &Fault{Kind: "internal", V: 0}})
+	// benign status traffic first: TASK_RUNNING reconciliation answers without executor id / agent id
+	// (a master need not send them), then every kind of failure of the critical task (seeded change
+	// C03-6 = C18-5: the refresh of the ids lost its nil guards, the task stops being locked)
+	for _, k := range []string{"failed", "lost", "killed", "error", "executor", "agent", "internal"} {
+		add("corpus-refresh-bare-then-"+k, Input{Tasks: two, Ops: []Op{{Kind: "cmd", Ev: "START", Oc: a2},
+			{Kind: "refresh", How: "reconnect", Omit: "both"}, {Kind: "fault", F: &Fault{Kind: k, V: 0}, Oc: a2}}})
+	}
+	add("corpus-refresh-update-noexecutor-then-lost-configured", Input{Tasks: two, Ops: []Op{{Kind: "refresh", How: "update", Omit: "executor"}, {Kind: "fault", F: &Fault{Kind: "lost", V: 0}, Oc: a2}}})
+	add("corpus-refresh-update-noagent-then-agent", Input{Tasks: two, Ops: []Op{{Kind: "cmd", Ev: "START", Oc: a2}, {Kind: "refresh", How: "update", Omit: "agent"}, {Kind: "fault", F: &Fault{Kind: "agent", V: 0}, Oc: a2}}})
+	add("corpus-refresh-claimed-then-executor", Input{Tasks: two, Claimed: true, Ops: []Op{{Kind: "cmd", Ev: "START", Oc: a2}, {Kind: "refresh", How: "reconnect", Omit: "executor"}, {Kind: "fault", F: &Fault{Kind: "executor", V: 0}, Oc: a2}}})
+	add("corpus-refresh-then-noncritical-and-stop", Input{Tasks: two, Ops: []Op{{Kind: "cmd", Ev: "START", Oc: a2}, {Kind: "refresh", How: "reconnect", Omit: "both"},
+		{Kind: "fault", F: &Fault{Kind: "failed", V: 1}, Oc: a2}, {Kind: "cmd", Ev: "STOP", Oc: a2}}})
 	return js
 }
 
@@ -1569,6 +1621,9 @@ func main() {
 			instants["before-subscription"]++
 		}
 		for _, op := range j.In.Ops {
+			if op.Kind == "refresh" {
+				labels["refresh="+op.How+",omit="+op.Omit]++
+			}
 			if op.F != nil {
 				faultKinds[op.F.Kind]++
 				if op.F.L != nil {
